@@ -138,7 +138,8 @@ class FuncInfo:
         return [x.arg for x in a.posonlyargs + a.args + a.kwonlyargs]
 
     def where(self, node: Optional[ast.AST] = None) -> str:
-        line = getattr(node, 'lineno', None) or self.node.lineno
+        from .inline import real_line
+        line = real_line(getattr(node, 'lineno', None) or self.node.lineno)
         return f"{self.module.relpath}:{line} ({self.short})"
 
     @property
@@ -201,8 +202,10 @@ class Module:
 class Program:
     PACKAGE = 'emsarray'
 
-    def __init__(self, repo: os.PathLike | str):
+    def __init__(self, repo: os.PathLike | str, normalise: bool = True):
         self.repo = Path(repo)
+        self.normalise = normalise
+        self.inlined: list[str] = []
         self.src = self.repo / 'src' / self.PACKAGE
         if not self.src.is_dir():
             raise AnalysisError(f"source tree {self.src} not found")
@@ -212,6 +215,13 @@ class Program:
         self.parse_errors: list[str] = []
         self._load()
         self._link()
+        if normalise:
+            from .inline import Inliner, load_reference
+            ref = load_reference()
+            if ref is not None:
+                inl = Inliner(self, ref)
+                inl.run()
+                self.inlined = inl.inlined
 
     # ---- loading
     def _load(self) -> None:
@@ -227,6 +237,8 @@ class Program:
                 tree = ast.parse(source, filename=str(path))
             except SyntaxError as exc:
                 raise AnalysisError(f"cannot parse {path}: {exc}")
+            from .inline import scale_lines
+            scale_lines(tree)
             mod = Module(name=name, path=path, relpath=str(path.relative_to(self.repo)),
                          tree=tree, source=source, is_package=is_pkg)
             self.modules[name] = mod
